@@ -451,6 +451,89 @@ fn gen_cached_subpredicate_case(r: &mut Rng) -> Case {
     Case { schema, rows, pred, int_truthy: false, index_on: None }
 }
 
+/// fractional keys × single- and multi-column indexes × range predicates: table tf (id, f, g) with
+/// f DOUBLE / NUMERIC / REAL (values k, k+0.25, k+0.5, k+0.75, NULLs), an index on (f), (f, g),
+/// (g, f) or none; the truth of the predicate is computed here (exact in binary: multiples of
+/// 0.25); WHERE p / WHERE NOT (p) / WHERE (p) IS NULL must return exactly the TRUE / FALSE /
+/// UNKNOWN rows
+fn float_index_partition_cases(r: &mut Rng, rep: &mut Report, n_cases: usize) {
+    for _ in 0..n_cases {
+        let fty = *r.pick(&["DOUBLE PRECISION", "NUMERIC(10, 2)", "REAL", "FLOAT"]);
+        let n = *r.pick(&[3usize, 9, 20, 60, 130]);
+        let dom = *r.pick(&[3i64, 8, 45]);
+        let rows: Vec<(i64, Option<f64>, Option<i64>)> = (0..n)
+            .map(|i| (i as i64, if r.chance(1, 8) { None } else { Some(r.range(0, dom) as f64 + 0.25 * r.below(4) as f64) }, if r.chance(1, 8) { None } else { Some(r.range(0, 4)) }))
+            .collect();
+        let index = *r.pick(&["", "CREATE INDEX ixf ON tf (f)", "CREATE INDEX ixf ON tf (f, g)", "CREATE INDEX ixf ON tf (f, g)", "CREATE INDEX ixf ON tf (g, f)", "CREATE INDEX ixf ON tf (f DESC, g)"]);
+        let mut db = Db::new();
+        db.keep_log = false;
+        let mut script = format!("CREATE TABLE tf (id INTEGER, f {}, g INTEGER);\n", fty);
+        db.must(&format!("CREATE TABLE tf (id INTEGER, f {}, g INTEGER)", fty));
+        let before = r.below(n as u64 + 1) as usize;
+        let fl = |x: &Option<f64>| x.map(|v| format!("{:?}", v)).unwrap_or("NULL".into());
+        let il = |x: &Option<i64>| x.map(|v| v.to_string()).unwrap_or("NULL".into());
+        for (k, (id, f, g)) in rows.iter().enumerate() {
+            if k == before && !index.is_empty() {
+                db.must(index);
+                script.push_str(&format!("{};\n", index));
+            }
+            let ins = format!("INSERT INTO tf VALUES ({}, {}, {})", id, fl(f), il(g));
+            db.must(&ins);
+            script.push_str(&format!("{};\n", ins));
+        }
+        if before >= n && !index.is_empty() {
+            db.must(index);
+            script.push_str(&format!("{};\n", index));
+        }
+        for _ in 0..8 {
+            // literal: a stored value, its integer part, or a value between stored ones
+            let base = rows.get(r.below(n as u64) as usize).and_then(|x| x.1).unwrap_or(1.0);
+            let v = match r.below(4) { 0 => base, 1 => base.floor(), 2 => base.floor() + 1.0, _ => base + 0.125 };
+            let v2 = v + *r.pick(&[0.0, 0.25, 1.0, 2.5]);
+            let vs = if v.fract() == 0.0 && r.chance(1, 2) { format!("{}", v as i64) } else { format!("{:?}", v) };
+            let v2s = if v2.fract() == 0.0 && r.chance(1, 2) { format!("{}", v2 as i64) } else { format!("{:?}", v2) };
+            let gk = r.range(0, 4);
+            type P = Box<dyn Fn(Option<f64>, Option<i64>) -> Option<bool>>;
+            let and3 = |a: Option<bool>, b: Option<bool>| match (a, b) { (Some(false), _) | (_, Some(false)) => Some(false), (Some(true), Some(true)) => Some(true), _ => None };
+            let (psql, truth): (String, P) = match r.below(10) {
+                0 => (format!("f > {}", vs), Box::new(move |f, _| f.map(|f| f > v))),
+                1 => (format!("f >= {}", vs), Box::new(move |f, _| f.map(|f| f >= v))),
+                2 => (format!("f < {}", vs), Box::new(move |f, _| f.map(|f| f < v))),
+                3 => (format!("f <= {}", vs), Box::new(move |f, _| f.map(|f| f <= v))),
+                4 => (format!("{} < f", vs), Box::new(move |f, _| f.map(|f| v < f))),
+                5 => (format!("f > {} AND f <= {}", vs, v2s), Box::new(move |f, _| f.map(|f| f > v && f <= v2))),
+                6 => (format!("f BETWEEN {} AND {}", vs, v2s), Box::new(move |f, _| f.map(|f| f >= v && f <= v2))),
+                7 => (format!("f = {}", vs), Box::new(move |f, _| f.map(|f| f == v))),
+                8 => (format!("f > {} AND g = {}", vs, gk), Box::new(move |f, g| and3(f.map(|f| f > v), g.map(|g| g == gk)))),
+                _ => (format!("g = {} AND f >= {} AND f < {}", gk, vs, v2s), Box::new(move |f, g| and3(g.map(|g| g == gk), f.map(|f| f >= v && f < v2)))),
+            };
+            let ids = |want: Option<bool>| -> Vec<String> {
+                let mut v: Vec<String> = rows.iter().filter(|(_, f, g)| truth(*f, *g) == want).map(|(id, _, _)| format!("(I{})", id)).collect();
+                v.sort();
+                v
+            };
+            let kinds = [ids(Some(true)), ids(Some(false)), ids(None)];
+            let nontrivial = kinds.iter().filter(|k| !k.is_empty()).count() >= 2;
+            rep.case(&format!("float index partition {} {} {} {}", fty, index, n, psql), nontrivial);
+            rep.count(if index.is_empty() { "float_partition_no_index" } else if index.contains("(f)") { "float_partition_single_column_index" } else { "float_partition_multi_column_index" });
+            let queries = [
+                ("WHERE p", format!("SELECT id FROM tf WHERE {}", psql), &kinds[0]),
+                ("WHERE NOT (p)", format!("SELECT id FROM tf WHERE NOT ({})", psql), &kinds[1]),
+                ("WHERE (p) IS NULL", format!("SELECT id FROM tf WHERE ({}) IS NULL", psql), &kinds[2]),
+            ];
+            for (what, sql, want) in queries.iter() {
+                let o = db.query(sql);
+                let got = o.rows().map(|rows| canon::bag_vec(rows));
+                if got.as_ref() != Some(*want) {
+                    rep.fail(FailKind::Oracle, None, &format!("fractional keys: {} does not return exactly the rows on which p has that truth value", what),
+                        &format!("{}{};\n  => {}\n-- expected ids {:?}", script, sql, o.brief().chars().take(300).collect::<String>(), want));
+                    break;
+                }
+            }
+        }
+    }
+}
+
 fn main() {
     engine::silence_panics();
     let args = Args::parse("C06");
@@ -502,6 +585,12 @@ fn main() {
         let c = gen_index_range_case(&mut r);
         rep.count("index_range_cases");
         run_case(&c, &mut model, &mut rep);
+    }
+    // fractional keys × single- / multi-column indexes × range predicates (hand-computed truth)
+    {
+        let mut r = rng.fork();
+        let n_f = args.n(40, 1500) as usize;
+        float_index_partition_cases(&mut r, &mut rep, n_f);
     }
     std::process::exit(rep.finish());
 }
